@@ -297,6 +297,41 @@ func c04ListElem(m *BGPMessage, d *vgenDiffResult) string {
 	return ":" + c04TypeName(list[0].NLRI)
 }
 
+// c04FirstSentinel returns "label-sentinel-first-in-stack" if the message holds a label stack of
+// two or more entries whose first entry serialises as one of the withdraw pseudo labels (that
+// class of value is known not to survive re-parsing), otherwise other.
+func c04FirstSentinel(m *BGPMessage, other string) string {
+	u, ok := m.Body.(*BGPUpdate)
+	if !ok {
+		return other
+	}
+	hit := func(ls MPLSLabelStack) bool {
+		return len(ls.Labels) > 1 && (ls.Labels[0] == 0 || ls.Labels[0] == 0x80000)
+	}
+	for _, a := range u.PathAttributes {
+		var list []PathNLRI
+		switch x := a.(type) {
+		case *PathAttributeMpReachNLRI:
+			list = x.Value
+		case *PathAttributeMpUnreachNLRI:
+			list = x.Value
+		}
+		for _, n := range list {
+			switch x := n.NLRI.(type) {
+			case *LabeledIPAddrPrefix:
+				if hit(x.Labels) {
+					return "label-sentinel-first-in-stack"
+				}
+			case *LabeledVPNIPAddrPrefix:
+				if hit(x.Labels) {
+					return "label-sentinel-first-in-stack"
+				}
+			}
+		}
+	}
+	return other
+}
+
 // c04FixCulprit names the first attribute that two messages serialise differently.
 func c04FixCulprit(m1, m2 *BGPMessage, o *vgenOptSet) (s string) {
 	s = fmt.Sprintf("type%d", m1.Header.Type)
@@ -974,7 +1009,7 @@ func c04AcceptedCase(rec *vlib.Rec, r *rand.Rand, idx int) {
 		return
 	}
 	if err != nil || m2 == nil {
-		c.viol("c04:accepted:reparse-error:"+c04ParseCulprit(m1, o), fmt.Sprintf("the parser accepts these octets, but not what gobgp re-serialises them to: %v", err), map[string]any{"reserialized": c04Hex(b1)})
+		c.viol("c04:accepted:reparse-error:"+c04FirstSentinel(m1, c04ParseCulprit(m1, o)), fmt.Sprintf("the parser accepts these octets, but not what gobgp re-serialises them to: %v", err), map[string]any{"reserialized": c04Hex(b1)})
 		return
 	}
 	c04ClearCaches(m1)
@@ -991,7 +1026,7 @@ func c04AcceptedCase(rec *vlib.Rec, r *rand.Rand, idx int) {
 	if err != nil {
 		c.viol("c04:accepted:fixpoint:error:"+c04Culprit(m2, o), fmt.Sprintf("second serialisation fails: %v", err), nil)
 	} else if !bytes.Equal(b1, b2) {
-		c.viol("c04:accepted:fixpoint:"+c04FixCulprit(m1, m2, o), fmt.Sprintf("S(P(S(P(x)))) != S(P(x)) (first difference at octet %d)", c04FirstDiff(b1, b2)), map[string]any{"s1": c04Hex(b1), "s2": c04Hex(b2)})
+		c.viol("c04:accepted:fixpoint:"+c04FirstSentinel(m1, c04FixCulprit(m1, m2, o)), fmt.Sprintf("S(P(S(P(x)))) != S(P(x)) (first difference at octet %d)", c04FirstDiff(b1, b2)), map[string]any{"s1": c04Hex(b1), "s2": c04Hex(b2)})
 	}
 	// lengths of the canonical re-parse
 	if u, ok := m2.Body.(*BGPUpdate); ok {
